@@ -66,7 +66,35 @@ class Leaf:
         return f"Leaf({self.path},{self.kind}{self.bits}@{self.offset})"
 
 
+_leaves_memo: Dict[Any, List[Leaf]] = {}
+
+
+def _shape(t: Any) -> Any:
+    """Structure of a type without expanding arrays (what the leaf list is a function of)."""
+    t = resolve(t)
+    if isinstance(t, TBase):
+        return (t.kind, t.bits)
+    if isinstance(t, Enum):
+        return ("e", id(t), t.bits)
+    if isinstance(t, TArray):
+        return ("a", t.cap, t.ext, _shape(t.elem))
+    if isinstance(t, Message):
+        return ("m", t.ext, tuple((f.name, f.number, _shape(f.type)) for f in t.sorted_fields()))
+    raise TypeError(t)
+
+
 def leaves(m: Message) -> List[Leaf]:
+    # messages with tens of thousands of leaves are asked for their (immutable) leaves many times per case
+    if nbits(m) >= 4096:
+        key = _shape(m)
+        hit = _leaves_memo.get(key)
+        if hit is None:
+            hit = []
+            _leaves(m, (), [0], hit)
+            if len(_leaves_memo) >= 6:
+                _leaves_memo.pop(next(iter(_leaves_memo)))
+            _leaves_memo[key] = hit
+        return list(hit)
     out: List[Leaf] = []
     _leaves(m, (), [0], out)
     return out
